@@ -93,6 +93,30 @@ def check(repo: Repo, rep: Report) -> None:
         rep.ob("T1-single-shot", h, desc, p.kinds == want,
                "from_callback: the handler does not emit exactly one value and then complete (or exactly one error when the mapper raises)")
     rep.require(n >= 3, "paths of from_callback_ handler")
+    # the element is what the callback received: the callback's own arguments (or the mapper's result over them); whether a
+    # lone value is delivered bare or the values as a list is decided by how many values THE CALLBACK received
+    rep.rule("T5-callback-payload", "from_callback: the delivered value is built from the callback's arguments and shaped by their count", floor=3)
+    cargs = h.node.args.vararg.arg if h.node.args.vararg else None
+    derived = {cargs} if cargs else set()
+    for n_ in h.direct_nodes():
+        if isinstance(n_, ast.Assign) and len(n_.targets) == 1 and isinstance(n_.targets[0], ast.Name) and \
+                any(isinstance(x, ast.Name) and x.id in derived for x in ast.walk(n_.value)):
+            derived.add(n_.targets[0].id)
+    for s in sites(h):
+        if isinstance(s.node, ast.Call) and isinstance(s.node.func, ast.Attribute) and s.node.func.attr == "on_next" and dotted(s.node.func.value) == "observer":
+            a0 = s.node.args[0] if s.node.args else None
+            star = isinstance(a0, ast.Starred)
+            nm = u(a0.value) if star else (u(a0) if a0 is not None else None)
+            rep.ob("T5-callback-payload", h, f"`{short(s.node)}` delivers the callback's values", nm in derived,
+                   f"from_callback delivers `{nm}`, which is not derived from the arguments the callback received")
+            if star:
+                from ..rules import effective_test as _eff
+                lens = [e for e, pol in s.ctx.guards if any(
+                    isinstance(c_, ast.Compare) and any(isinstance(x, ast.Call) and call_name(x) == "len" and x.args and u(x.args[0]) == nm for x in ast.walk(c_))
+                    for c_ in ast.walk(_eff(h, e)))]
+                rep.ob("T5-callback-payload", h, f"`{short(s.node)}` unpacks {nm} only under a test of len({nm})", bool(lens),
+                       f"from_callback unpacks `{nm}` into on_next without the decision being made on len({nm}): with a different "
+                       f"number of callback values the call fails (TypeError) or a lone value is delivered as a list")
     csub = repo.fn(FC, "from_callback_.function.subscribe")
     calls = [s for s in sites(csub) if isinstance(s.node, ast.Call) and isinstance(s.node.func, ast.Name) and s.node.func.id == "func"]
     ok = len(calls) == 1 and calls[0].node.args and u(calls[0].node.args[-1]) == "handler" and not calls[0].ctx.loops
